@@ -147,6 +147,123 @@ theorem code128_ideal_decode_encode (T : Tables) (hT : WF128 T.code128 = true) (
   rw [← hWlen, hchunks, hidx]
   simp only [hstopIdx]
 
+/-- Clause "ITF … reads back", module layer: for every table of ten distinct five-element patterns and positive
+    guards, the module pattern drawn for a digit string of even length is split back into exactly these digits
+    (guards recognised, ten runs per pair de-interleaved, table lookup) and then judged by the reader's length rule. -/
+theorem itf_ideal_decode_encode (T : Tables) (hT : WFITF T = true) (allowed : List Nat) (ds : List Nat)
+    (hd : ∀ d ∈ ds, d < 10) (heven : ds.length % 2 = 0) :
+    ∃ mods, itfDraw T ds = .ok mods ∧ itfIdeal T allowed mods = itfReadDigits allowed ds := by
+  simp only [WFITF, Bool.and_eq_true, beq_iff_eq, decide_eq_true_eq, List.all_eq_true] at hT
+  obtain ⟨⟨⟨⟨⟨⟨hlen, hpat⟩, hnd⟩, hsl⟩, hsp⟩, hel⟩, hep⟩ := hT
+  generalize hW : T.itfWriter = W at *
+  generalize hS : T.itfStart = start at *
+  generalize hE : T.itfEnd = stop at *
+  have hpatD : ∀ d, d < 10 → (W.getD d []).length = 5 ∧ ∀ w ∈ W.getD d [], 0 < w := by
+    intro d hd10
+    have hm : W.getD d [] ∈ W := by
+      have : W.getD d [] = W[d]'(by omega) := by
+        simp [List.getD_eq_getElem?_getD, List.getElem?_eq_getElem (show d < W.length by omega)]
+      rw [this]; exact List.getElem_mem _
+    have := hpat _ hm
+    exact ⟨this.1, this.2⟩
+  let enc : Nat × Nat → List Nat := fun p => interleave (W.getD p.1 []) (W.getD p.2 [])
+  let pairsW := (itfPairs ds).map enc
+  have hpairs : ∀ p ∈ itfPairs ds, p.1 < 10 ∧ p.2 < 10 := fun p hp =>
+    ⟨hd _ (itfPairs_mem ds p hp).1, hd _ (itfPairs_mem ds p hp).2⟩
+  have hpW : ∀ c ∈ pairsW, c.length = 10 ∧ ∀ w ∈ c, 0 < w := by
+    intro c hc
+    obtain ⟨p, hp, rfl⟩ := List.mem_map.mp hc
+    have h1 := hpatD p.1 (hpairs p hp).1
+    have h2 := hpatD p.2 (hpairs p hp).2
+    refine ⟨by simp only [enc]; rw [interleave_length _ _ (by omega)]; omega, ?_⟩
+    intro w hw
+    rcases interleave_mem _ _ w hw with h | h
+    · exact h1.2 w h
+    · exact h2.2 w h
+  have hdraw : itfDraw T ds = .ok (appendPattern (start ++ pairsW.flatten ++ stop) true) := by
+    unfold itfDraw
+    rw [hW, hS, hE]
+    have hm : (itfPairs ds).mapM (itfPairDraw W) = .ok ((itfPairs ds).map (fun p => appendPattern (enc p) true)) := by
+      apply mapM_ok
+      intro p hp
+      have h1 := (hpairs p hp).1
+      have h2 := (hpairs p hp).2
+      simp only [itfPairDraw, nth_getD W p.1 (by omega), nth_getD W p.2 (by omega), bind, Except.bind, pure, Except.pure, enc]
+    simp only [hm, bind, Except.bind, pure, Except.pure]
+    have he : ∀ c ∈ pairsW, c.length % 2 = 0 := fun c hc => by have := (hpW c hc).1; omega
+    have hfl := flatten_map_appendPattern pairsW true he
+    simp only [pairsW, List.map_map] at hfl
+    have hfl' : (List.map (fun p => appendPattern (enc p) true) (itfPairs ds)).flatten
+        = appendPattern (List.map enc (itfPairs ds)).flatten true := hfl
+    rw [hfl']
+    congr 1
+    rw [appendPattern_even_append _ _ true (by omega), appendPattern_even_append _ _ true (by
+      simp only [List.length_append]
+      have := flatten_length_even pairsW he
+      simp only [pairsW] at this
+      omega)]
+  refine ⟨_, hdraw, ?_⟩
+  have hRpos : ∀ w ∈ start ++ pairsW.flatten ++ stop, 0 < w := by
+    intro w hw
+    simp only [List.mem_append, List.mem_flatten] at hw
+    rcases hw with (hw | ⟨c, hc, hwc⟩) | hw
+    · have := hsp w hw; simpa using this
+    · exact (hpW c hc).2 w hwc
+    · have := hep w hw; simpa using this
+  have hRne : start ++ pairsW.flatten ++ stop ≠ [] := by
+    intro e
+    have := congrArg List.length e
+    simp only [List.length_append, hsl, hel, List.length_nil] at this; omega
+  have hhead := appendPattern_head _ true hRne hRpos
+  have hruns := runs_appendPattern _ true hRpos
+  have hflen : pairsW.flatten.length = 10 * pairsW.length := flatten_length_const pairsW 10 (fun c hc => (hpW c hc).1)
+  have hRlen : (start ++ pairsW.flatten ++ stop).length = pairsW.flatten.length + 7 := by
+    simp only [List.length_append, hsl, hel]; omega
+  have htake4 : (start ++ pairsW.flatten ++ stop).take 4 = start := by
+    rw [List.append_assoc, ← hsl, List.take_left']; rfl
+  have hdrop3 : (start ++ pairsW.flatten ++ stop).drop ((start ++ pairsW.flatten ++ stop).length - 3) = stop := by
+    have : (start ++ pairsW.flatten ++ stop).length - 3 = (start ++ pairsW.flatten).length := by
+      simp only [List.length_append, hel]; omega
+    rw [this, List.drop_left']; rfl
+  have hbody : ((start ++ pairsW.flatten ++ stop).drop 4).take ((start ++ pairsW.flatten ++ stop).length - 7)
+      = pairsW.flatten := by
+    have h1 : (start ++ pairsW.flatten ++ stop).drop 4 = pairsW.flatten ++ stop := by
+      rw [List.append_assoc, ← hsl, List.drop_left']; rfl
+    rw [h1, hRlen, Nat.add_sub_cancel, List.take_left']; rfl
+  have hchunks := chunks_exact 10 (by omega) pairsW (fun c hc => (hpW c hc).1)
+  have hdec : pairsW.mapM (itfPairRead W) = .ok ((itfPairs ds).map (fun p => [p.1, p.2])) := by
+    have h1 := mapM_ok (itfPairRead W)
+      (fun c => [(patIndex? (deinterleave c).1 W).getD 0, (patIndex? (deinterleave c).2 W).getD 0]) pairsW (by
+        intro c hc
+        obtain ⟨p, hp, rfl⟩ := List.mem_map.mp hc
+        have h1 := (hpairs p hp).1
+        have h2 := (hpairs p hp).2
+        have hl : (W.getD p.1 []).length = (W.getD p.2 []).length := by
+          rw [(hpatD _ h1).1, (hpatD _ h2).1]
+        simp only [itfPairRead, enc, deinterleave_interleave _ _ hl, patLookup, patIndex?_getD W hnd p.1 (by omega),
+          patIndex?_getD W hnd p.2 (by omega), bind, Except.bind, pure, Except.pure, Option.getD_some])
+    rw [h1]
+    congr 1
+    simp only [pairsW, List.map_map]
+    apply List.map_congr_left
+    intro p hp
+    have h1 := (hpairs p hp).1
+    have h2 := (hpairs p hp).2
+    have hl : (W.getD p.1 []).length = (W.getD p.2 []).length := by
+      rw [(hpatD _ h1).1, (hpatD _ h2).1]
+    simp only [Function.comp, enc, deinterleave_interleave _ _ hl, patIndex?_getD W hnd p.1 (by omega),
+      patIndex?_getD W hnd p.2 (by omega), Option.getD_some]
+  unfold itfIdeal
+  rw [hW, hS, hE]
+  simp only [hhead, hruns, ne_eq, not_true_eq_false, if_false, bind, Except.bind, pure, Except.pure]
+  have hc1 : ¬ ((start ++ pairsW.flatten ++ stop).length < 7 ∨ ¬ (start ++ pairsW.flatten ++ stop).take 4 = start ∨
+      ¬ (start ++ pairsW.flatten ++ stop).drop ((start ++ pairsW.flatten ++ stop).length - 3) = stop) := by
+    rw [htake4, hdrop3, hRlen]; simp
+  simp only [hc1, if_false, hbody]
+  have hc2 : pairsW.flatten.length % 10 = 0 := by rw [hflen]; omega
+  simp only [hc2, not_true_eq_false, if_false, hchunks, hdec, itfPairs_flatten ds heven]
+
+
 /-! ### Code 128 code-set automaton -/
 
 /-- all sequences of at most `n` character classes: digit pair "12", single digit "7", upper-case "A",
@@ -226,5 +343,86 @@ theorem upcean_writer_rejects (T : Tables) (contents : List Nat) (e : Fault) :
   · simp [ean8Modules, h, bind, Except.bind]
   · simp [upcaModules, ean13Modules, h, bind, Except.bind]
   · simp [upceModules, h, bind, Except.bind]
+
+/-! ### writer ∘ reader -/
+
+/-- Clause "ITF: even digit strings of the reader's accepted lengths … read(write(c)) == c": composition of the writer
+    (validation, interleaving, drawing) with the module-level reader, for every accepted content. -/
+theorem itf_read_write (T : Tables) (hT : WFITF T = true) (allowed : List Nat) (contents : List Nat)
+    (hdig : allDigits contents = true) (heven : contents.length % 2 = 0) (hlen : contents.length ≤ 80)
+    (hallowed : allowed.contains contents.length = true ∨ contents.length > allowed.foldl max 0) :
+    ∃ mods, itfModules T contents = .ok mods ∧ itfIdeal T allowed mods = .ok contents := by
+  have hsym : itfSymbols contents = .ok (digitVals contents) := by
+    rw [itf_writer_rejects]
+    have : ¬ (contents.length % 2 ≠ 0 ∨ contents.length > 80 ∨ allDigits contents = false) := by
+      simp [heven, hdig]; omega
+    rw [if_neg this]
+  have hdl : (digitVals contents).length = contents.length := by simp [digitVals]
+  obtain ⟨mods, hdraw, hideal⟩ := itf_ideal_decode_encode T hT allowed (digitVals contents)
+    (digitVals_lt contents hdig) (by rw [hdl]; exact heven)
+  refine ⟨mods, ?_, ?_⟩
+  · simp only [itfModules, hsym, bind, Except.bind]
+    exact hdraw
+  · rw [hideal]
+    unfold itfReadDigits
+    simp only [hdl]
+    have : (allowed.contains contents.length = true ∨ contents.length > allowed.foldl max 0) := hallowed
+    rw [if_pos this, digitVals_roundtrip contents hdig]
+
+/-- Clause "Code 39 incl. full-ASCII … reads back as exactly that content", symbol layer: whatever symbol characters
+    the Code 39 writer chooses for a non-empty ASCII content (plain when every character is in the 43-character
+    alphabet, full-ASCII escapes otherwise), the matching reader mode (plain / extended) returns the content. -/
+theorem code39_read_write (T : Tables) (contents syms : List Nat) (hne : contents ≠ [])
+    (hascii : ∀ c ∈ contents, c < 128) (h : code39Symbols T contents = .ok syms) :
+    code39ReadSymbols T syms (!(contents.all (fun c => (indexOf? c T.code39Alphabet).isSome))) = .ok contents := by
+  unfold code39Symbols at h
+  simp only [bind, Except.bind, pure, Except.pure, throw, throwThe, MonadExceptOf.throw] at h
+  split at h
+  · cases h
+  · by_cases hall : contents.all (fun c => (indexOf? c T.code39Alphabet).isSome) = true
+    · simp only [hall, if_true] at h
+      have hchars := mapM_alphaIndex_nth _ _ _ h
+      unfold code39ReadSymbols
+      simp only [hchars, bind, Except.bind, pure, Except.pure, hall, Bool.not_true]
+      have : contents.isEmpty = false := by cases contents <;> simp_all
+      simp [this]
+    · have hall' : contents.all (fun c => (indexOf? c T.code39Alphabet).isSome) = false := by
+        simpa using hall
+      obtain ⟨e, he, hu⟩ := ext39_inv contents hascii
+      simp only [hall', Bool.false_eq_true, if_false, he] at h
+      split at h
+      · cases h
+      · have hchars := mapM_alphaIndex_nth _ _ _ h
+        unfold code39ReadSymbols
+        simp only [hchars, bind, Except.bind, pure, Except.pure, hall', Bool.not_false]
+        have : e.isEmpty = false := by
+          cases e with
+          | nil => simp [code39Unescape] at hu; exact absurd hu hne
+          | cons _ _ => rfl
+        simp [this, hu]
+
+/-- Clause "Code 93: ASCII 0-127 … reads back", symbol layer: the characters the Code 93 writer draws for an ASCII
+    content (escapes, C and K) pass the reader's checksum test and unescape to the content. -/
+theorem code93_read_write (T : Tables) (contents syms : List Nat)
+    (hascii : ∀ c ∈ contents, c < 128) (h : code93Symbols T contents = .ok syms) :
+    code93ReadSymbols T syms = .ok contents := by
+  unfold code93Symbols at h
+  obtain ⟨e, he, hu⟩ := ext93_inv contents hascii
+  simp only [he, bind, Except.bind, pure, Except.pure, throw, throwThe, MonadExceptOf.throw] at h
+  split at h
+  · cases h
+  · split at h
+    · cases h
+    · rename_i vals hvals
+      cases h
+      have hchars := mapM_alphaIndex_nth _ _ _ hvals
+      unfold code93ReadSymbols
+      have hl : ¬ (vals ++ [(c93Checks vals).1, (c93Checks vals).2]).length < 2 := by simp
+      have htake : (vals ++ [(c93Checks vals).1, (c93Checks vals).2]).take
+          ((vals ++ [(c93Checks vals).1, (c93Checks vals).2]).length - 2) = vals := by
+        have : (vals ++ [(c93Checks vals).1, (c93Checks vals).2]).length - 2 = vals.length := by simp
+        rw [this, List.take_left']; rfl
+      simp only [hl, if_false, bind, Except.bind, pure, Except.pure, throw, throwThe, MonadExceptOf.throw,
+        Properties.C10.code93_writer_checks_accepted vals, htake, hchars, hu]
 
 end Gzx.Properties.C03
